@@ -218,13 +218,15 @@ def impl_multi(case):
     l, subs = case[3:], []
     for _ in range(ns):
         c, n = l[0], l[1]
-        p = ports.EchoPort()
-        for x in l[2:2 + n]:
-            p.send(mkmsg(x))
+        q = l[2:2 + n]
+        nsc = l[2 + n]
+        script, l = decode_actions(nsc, l[3 + n:])
+        p = make_port(0, 0, script, {'sleeps': 0, 'taken': []})       # a device double: its _receive follows the script (may close itself)
+        for x in q:
+            p._messages.append(mkmsg(x))
         if c:
             p.close()
         subs.append(p)
-        l = l[2 + n:]
     k = l[0]
     mp = ports.MultiPort(subs)
     st = {'sleeps': 0, 'n': 0}
@@ -338,10 +340,16 @@ def run(out):
         c = [4, rng.choice([0, 1]), ns]
         for _ in range(ns):
             q = [fresh() for _ in range(rng.randrange(0, 3))]
-            c += [1 if rng.random() < 0.2 else 0, len(q)] + q
-        c += [rng.randrange(1, 4)]
+            # some sub-ports are devices that take messages in (and may close themselves) inside a poll
+            script = [rng.choice([('push', [fresh(), fresh()]), ('pushclose', [fresh(), fresh()]), ('pushclose', [fresh()]), ('msg', fresh()), ('nothing',), ('close',),
+                                  ('push', [fresh()])]) for _ in range(rng.randrange(0, 3))] if rng.random() < 0.5 else []
+            c += [1 if rng.random() < 0.2 else 0, len(q)] + q + [len(script)]
+            for a in script:
+                c += enc_action(a)
+        c += [rng.randrange(1, 5)]
         multis.append(c)
-    multis += [[4, 1, 1, 0, 1, 5, 1], [4, 1, 2, 0, 0, 0, 1, 5, 2], [4, 0, 1, 0, 0, 1]]
+    multis += [[4, 1, 1, 0, 1, 5, 0, 1], [4, 1, 2, 0, 0, 0, 0, 1, 5, 0, 2], [4, 0, 1, 0, 0, 0, 1],
+               [6, 1, 1, 0, 0, 1, 4, 3, 11, 12, 13, 3], [6, 0, 2, 0, 0, 1, 4, 2, 21, 22, 0, 1, 23, 0, 4]]
     # PortServer (a MultiPort over accepted socket connections, mido/sockets.py): blocking and non-blocking receive with clients that have
     # a message deliverable, through the C18 runner on real loop-back connections (model component 111)
     servers = []
